@@ -21,8 +21,8 @@ PROP = 'C10'
 MODULE = 'Props.C10'
 THEOREMS = ['C10_every_function_once', 'C10_skip_zero_hides_exactly_no_hits',
             'C10_every_line_once_on_its_row', 'C10_every_line_once',
-            'C10_missing_file_keeps_every_line', 'C10_ipython_cell_rows_refuted',
-            'C10_ipython_cell_after_clear_has_no_rows', 'C10_duplicate_lineno_last_wins',
+            'C10_missing_file_keeps_every_line', 'C10_ipython_cell_rows_shown',
+            'C10_ipython_cell_example', 'C10_duplicate_lineno_last_wins',
             'C10_hits_roundtrip', 'C10_hits_nine_digits_exact', 'C10_hits_fallback_six_digits',
             'C10_f1_precision', 'C10_f2_precision', 'C10_g_precision_partial',
             'C10_sort', 'C10_sort_default_by_key', 'C10_summarize',
@@ -31,6 +31,7 @@ LEVEL = 'proof'
 DRIVER = 'harness.drivers.c10'
 FINDING = 'C10-skipzero-summary-filters-on-time'
 FINDING_CELL = 'C10-ipython-cell-rows-lost-after-file-block'
+N_CANONICAL = 5
 
 COMBOS = [list(c) for c in itertools.product([False, True], repeat=4)]   # strip, sort, summarize, details
 UNITS = [1e-9, 1e-7, 1e-6, 1.0]
@@ -246,8 +247,9 @@ def finding_case(tmpdir, idx):
 
 
 def cell_finding_case(tmpdir, idx):
-    """Canonical replay of the second known finding: an IPython-cell function reported after a
-    function whose file is on disk loses all its rows (linecache.clearcache() in show_func)."""
+    """Canonical replay of the finding repaired by /repo 6c987c9 (an IPython-cell function reported
+    after a function whose file is on disk lost all its rows: linecache.clearcache() in show_func);
+    kept in every run as a regression case."""
     d = '%s/c%d' % (tmpdir, idx)
     fn = d + '/a.py'
     cell = '<ipython-input-3-abcdef>'
@@ -597,7 +599,17 @@ SHARD_HEADER = ('From Coq Require Import QArith.\n'
                 'Open Scope Z_scope.\n')
 
 
-def build_shards(cases, outs, per=6):
+def coq_combos(tier, k):
+    """Which of the 16 reports of case k are also compared inside Coq.  Thorough: all.  Quick: all
+    for the canonical cases, else the everything-on report plus five that rotate with k, so that
+    every option combination is compared inside Coq in every run; the python-side predicate sees
+    all 16 reports of every case in both tiers."""
+    if tier != 'quick' or k < N_CANONICAL:
+        return set(range(16))
+    return {15} | {(5 * k + i) % 16 for i in range(5)}
+
+
+def build_shards(cases, outs, per=6, tier='thorough'):
     """-> (bodies, index) where index[shard] = list of (case idx, combo idx) in row order."""
     bodies, index = [], []
     for chunk in core.chunks(list(range(len(cases))), per):
@@ -610,7 +622,7 @@ def build_shards(cases, outs, per=6):
             defs.append(coq_case_defs(P, k, case, out['env']))
             for j, combo in enumerate(case['combos']):
                 o = out['parsed'][j]
-                if o is None:
+                if o is None or j not in coq_combos(tier, k):
                     continue
                 opts = '(mkOpts %s)' % ' '.join(core.coq_bool(x) for x in combo)
                 args = '%s %s c%d_env c%d_fs %s c%d_st %s' % (
@@ -698,9 +710,11 @@ def run(tier, seed):
     # ---- shards: model vs implementation, Coq-side predicate on the implementation ------
     model_ok = not any('build of' in f for f in res.obl['failures'])
     n_eval = sum(1 for c, o in zip(cases, outs) for p in o['parsed'] if p is not None)
+    n_coq = 0
     t_sh = time.time()
     if model_ok:
-        bodies, index = build_shards(cases, outs)
+        bodies, index = build_shards(cases, outs, per=7 if tier == 'quick' else 6, tier=tier)
+        n_coq = sum(len(ix) for ix in index)
         shards = core.run_shards('c10', SHARD_HEADER, bodies, timeout=1500)
         for k, sres in enumerate(shards):
             if sres[0] != 'ok' or len(sres[1]) != 2:
@@ -752,8 +766,10 @@ def run(tier, seed):
                     nontrivial.add((json.dumps(c['stats']), c['unit'], c['output_unit'], tuple(combo)))
     sample_idx = [0, min(3, len(cases) - 1), len(cases) - 1]
     res.coverage = dict(
-        evaluations=n_eval, distinct_nontrivial=len(nontrivial),
-        rule='one evaluation = one real show_text call (one stats dict x one of the 16 option combinations); non-trivial = '
+        evaluations=n_eval, compared_inside_coq=n_coq, distinct_nontrivial=len(nontrivial),
+        rule='one evaluation = one real show_text call (one stats dict x one of the 16 option combinations), checked by the '
+             'python-side predicate; compared_inside_coq of them are also compared with the model and the Coq predicate (all in '
+             'the thorough tier; in the quick tier 6 of 16 per stats dict, rotating so every combination occurs); non-trivial = '
              'valid stats with at least one recorded line and details or summarize on, distinct by (stats, units, options)',
         exhaustive=True,
         exhaustive_scope='all 16 (stripzeros, sort, summarize, details) combinations for every generated stats dict',
